@@ -165,7 +165,8 @@ class SimAttrs:
     def create(self, name, data, shape=None, dtype=None):
         sds = self._sds
         dat = np.asarray(data)
-        sig = (sds._name, name, dat.tobytes(), str(dat.dtype), repr(shape), repr(dtype))
+        sig = (sds._name, name, dat.tobytes(), str(dat.dtype), repr(shape),
+               str(getattr(dtype, 'dtype', dtype)))      # no object addresses in the event log
 
         def complete(p):
             sds._real().attrs.create(name, data, shape, dtype)
